@@ -40,8 +40,10 @@ ASSUMPTIONS = [
 MANIFEST_ENTRY = {
     'technique': 'fault injection with exhaustive enumeration of crash points '
                  '(every file event x byte-offset class, every trial '
-                 'boundary) + Hypothesis multi-restart histories; reference '
-                 'model = last completed save',
+                 'boundary) + Hypothesis multi-restart histories (growing '
+                 'specs, decoder option sets, direct and splitting method, '
+                 'foreign records); reference model = last completed save and '
+                 'the harness\'s own expansion of every spec run on the file',
     'level_text': 'Every enumerated crash point of every checkpoint write of '
                   'the base scenarios is executed against the real '
                   'BatchSimulation and followed by a restart; the result is '
